@@ -84,6 +84,15 @@ def gensOp (j : Json) : R Json := do
     let Wi := DMat.ofMatrix (← matf n n j "Winv")
     return .arr ((fins n).map fun i =>
       ofD (DMat.ofMatrix (hypRep B W.toMatrix Wi.toMatrix i))).toArray
+  | "canonhyp" =>
+    -- `canonical_representation(diagonalize=True)`: dual of the diagonalised generator; a generator is an
+    -- involution (`GT.C08.relations_transfer`), so its inverse transpose is its transpose
+    let B ← getB n j
+    if (fins n).any (fun i => B i i ≠ 1) then throw "diag-not-one"
+    let W := DMat.ofMatrix (← matf n n j "W")
+    let Wi := DMat.ofMatrix (← matf n n j "Winv")
+    return .arr ((fins n).map fun i =>
+      ofD (DMat.ofMatrix (hypRep B W.toMatrix Wi.toMatrix i).transpose)).toArray
   | _ => throw "unknown kind"
 
 /-- `Representation._word_value` on supplied generator matrices -/
